@@ -28,9 +28,10 @@ from typing import Any
 from bqskit.compiler.basepass import BasePass
 from bqskit.runtime import get_runtime
 
-EXEC_LOG: list[tuple[str, int, str]] = []      # (tag, worker id, 'start'|'end'|'raise')
+EXEC_LOG: list[tuple] = []      # (tag, worker id, 'start'|'end'|'raise', step, addr, breadcrumbs)
 AWAIT_LOG: list[tuple[str, str, str, Any]] = []  # (tag, var, kind, value)
 _logger = logging.getLogger('verif.workload')
+now = lambda: 0  # noqa: E731  (the runner rebinds this to the scheduler's step counter)
 
 
 def reset_logs() -> None:
@@ -42,7 +43,10 @@ async def run_tree(tree: dict) -> Any:
     rt = get_runtime()
     wid = rt._id  # type: ignore
     tag = tree['tag']
-    EXEC_LOG.append((tag, wid, 'start'))
+    at = getattr(rt, '_active_task', None)
+    addr = list(at.return_address) if at is not None else None
+    crumbs = [list(b) for b in at.breadcrumbs] if at is not None else []
+    EXEC_LOG.append((tag, wid, 'start', now(), addr, crumbs))
     futs: dict[str, Any] = {}
     sizes: dict[str, int] = {}
     got: list[Any] = []
@@ -71,15 +75,14 @@ async def run_tree(tree: dict) -> Any:
                 got.append(sorted([[int(i), v] for i, v in seen], key=lambda x: x[0]) if op == 'next_all' else ['K', len(seen) >= need])
             elif op == 'cancel':
                 rt.cancel(futs[st[1]])
-                AWAIT_LOG.append((tag, st[1], 'cancel', None))
+                AWAIT_LOG.append((tag, st[1], 'cancel', now()))
             elif op == 'await_cancelled':
-                try:
-                    v = await futs[st[1]]
-                    AWAIT_LOG.append((tag, st[1], 'await_cancelled_value', v))
-                    got.append(['UNEXPECTED', v])
-                except RuntimeError as e:
-                    AWAIT_LOG.append((tag, st[1], 'await_cancelled_raised', str(e)[:80]))
-                    got.append('CANCELLED')
+                # Awaiting a cancelled future is refused by the worker loop
+                # ('Cannot await on a canceled task.'): the compilation fails
+                # and this coroutine is never resumed.
+                v = await futs[st[1]]
+                AWAIT_LOG.append((tag, st[1], 'await_cancelled_value', v))
+                got.append(['UNEXPECTED', v])
             elif op == 'raise':
                 EXEC_LOG.append((tag, wid, 'raise'))
                 raise ValueError(st[1])
@@ -114,7 +117,8 @@ class Expect:
     def __init__(self) -> None:
         self.must_run: set[str] = set()      # exactly once
         self.may_run: set[str] = set()       # at most once (under a cancel / after a raise)
-        self.raises: str | None = None       # message of the first raising body reached
+        self.raises: str | None = None       # message of a raise that is certainly reached
+        self.may_raise: list[str] = []       # raises inside tasks that merely may run
         self.awaits: dict[tuple[str, str], Any] = {}  # (tag, var) -> value
         self.all_tags: set[str] = set()
 
@@ -133,31 +137,30 @@ class _Raised(Exception):
     pass
 
 
+BLOCKED = ('<blocked>',)
+
+
 def interpret(tree: dict) -> tuple[Any, Expect]:
     """Returns (expected root value or None if the compilation must fail,
-    Expect)."""
+    Expect). A task that raises (or awaits something that never arrives
+    because it raised) yields BLOCKED: its parent never receives a value."""
     ex = Expect()
     _all_tags(tree, ex.all_tags)
 
-    def contains_raise(t: dict) -> bool:
-        for st in t['steps']:
-            if st[0] == 'raise':
-                return True
-            if st[0] == 'submit' and contains_raise(st[2]):
-                return True
-            if st[0] == 'map' and any(contains_raise(c) for c in st[2]):
-                return True
-        return False
-
     def ev(t: dict, certain: bool) -> Any:
-        """Evaluate t. `certain`: this task certainly runs to completion
-        unless something raises."""
         tag = t['tag']
         (ex.must_run if certain else ex.may_run).add(tag)
-        vals: dict[str, Any] = {}
         kids: dict[str, Any] = {}
         state: dict[str, str] = {}
         got: list[Any] = []
+
+        def orphan_rest() -> None:
+            for var, (kind, sub) in kids.items():
+                if state[var] == 'open':
+                    state[var] = 'orphan'
+                    for c in ([sub] if kind == 'one' else sub):
+                        ev(c, False)
+
         for st in t['steps']:
             op = st[0]
             if op == 'submit':
@@ -166,26 +169,34 @@ def interpret(tree: dict) -> tuple[Any, Expect]:
             elif op == 'map':
                 kids[st[1]] = ('many', st[2])
                 state[st[1]] = 'open'
-            elif op == 'await':
+            elif op in ('await', 'next_all'):
                 kind, sub = kids[st[1]]
                 state[st[1]] = 'awaited'
                 if kind == 'one':
-                    v = ev(sub, certain)
+                    vs = [ev(sub, certain)]
                 else:
-                    v = [ev(c, certain) for c in sub]
-                ex.awaits[(tag, st[1])] = v
-                got.append(v)
-            elif op == 'next_all':
-                kind, sub = kids[st[1]]
-                state[st[1]] = 'awaited'
-                v = [[i, ev(c, certain)] for i, c in enumerate(sub)]
-                ex.awaits[(tag, st[1])] = ('next_all', v)
+                    vs = [ev(c, certain) for c in sub]
+                if any(v is BLOCKED for v in vs):
+                    if op == 'next_all':
+                        # partial batches may still be observed; values of
+                        # the children that did finish must be right
+                        ex.awaits[(tag, st[1])] = ('next_partial', [[i, v] for i, v in enumerate(vs) if v is not BLOCKED])
+                    orphan_rest()
+                    return BLOCKED
+                if op == 'await':
+                    v = vs[0] if kind == 'one' else vs
+                    ex.awaits[(tag, st[1])] = v
+                else:
+                    v = [[i, x] for i, x in enumerate(vs)]
+                    ex.awaits[(tag, st[1])] = ('next_all', v)
                 got.append(v)
             elif op == 'next_k':
                 kind, sub = kids[st[1]]
                 state[st[1]] = 'partial'
                 vs = [[i, ev(c, False)] for i, c in enumerate(sub)]
-                ex.awaits[(tag, st[1])] = ('next_k', vs, int(st[2]))
+                ex.awaits[(tag, st[1])] = ('next_k', [p for p in vs if p[1] is not BLOCKED], int(st[2]))
+                if any(p[1] is BLOCKED for p in vs):
+                    certain = False
                 got.append(['K', True])
             elif op == 'cancel':
                 kind, sub = kids[st[1]]
@@ -193,34 +204,26 @@ def interpret(tree: dict) -> tuple[Any, Expect]:
                     for c in ([sub] if kind == 'one' else sub):
                         ev(c, False)
                 state[st[1]] = 'cancelled'
-            elif op == 'await_cancelled':
-                got.append('CANCELLED')
-            elif op == 'raise':
-                if ex.raises is None:
-                    ex.raises = st[1]
-                # un-awaited children of this task: may run
-                for var, (kind, sub) in kids.items():
-                    if state[var] == 'open':
-                        for c in ([sub] if kind == 'one' else sub):
-                            ev(c, False)
-                raise _Raised()
+            elif op in ('await_cancelled', 'raise'):
+                msg = 'Cannot await on a canceled task' if op == 'await_cancelled' else st[1]
+                if certain and ex.raises is None:
+                    ex.raises = msg
+                else:
+                    ex.may_raise.append(msg)
+                orphan_rest()
+                return BLOCKED
         # task completion cancels children never awaited
-        for var, (kind, sub) in kids.items():
-            if state[var] == 'open':
-                for c in ([sub] if kind == 'one' else sub):
-                    ev(c, False)
+        orphan_rest()
         return ['R', tag, got]
 
-    try:
-        val = ev(tree, True)
-    except _Raised:
+    val = ev(tree, True)
+    if val is BLOCKED:
         val = None
     if ex.raises is not None:
-        # once anything raises, the client errors out and disconnect cancels
-        # the rest: every task merely *may* have run
+        # once anything raises, the client errors out and its disconnect
+        # cancels the rest: every task merely *may* have run
         ex.may_run |= ex.must_run
         ex.must_run = set()
         val = None
-    # a tag evaluated under both a certain and an uncertain context is uncertain
     ex.must_run -= ex.may_run
     return val, ex
